@@ -426,6 +426,37 @@ DoSpop(c, st) == CHOOSE r \in SpopAlts(c, st) : TRUE
 RandomKeyAlts(c, st) == IF DOMAIN st = {} THEN {Res(RNil, st)} ELSE {Res(RBulk(KeyBytes(c, k)), st) : k \in DOMAIN st}
 DoRandomKey(c, st) == CHOOSE r \in RandomKeyAlts(c, st) : TRUE
 
+(* INCRBYFLOAT key increment [doc]: the value is a float, the result is stored and returned in %.17g form, the TTL *)
+(* is kept.  The model speaks about exact multiples of 1/4 only (c.q = 4 * increment; the same arithmetic as the   *)
+(* sorted-set scores): a current value that is the canonical rendering of a quarter (ScoreBytes) is judged; a       *)
+(* value that cannot be a float in any syntax (empty, or with a byte outside digits, sign, point, exponent, and the  *)
+(* letters of inf / nan / hexadecimal floats) is an error; everything else (" 5" is an error in Redis, "+5" and     *)
+(* "007" are not) is left loose: IncrFloatLoose, not judged.                                                         *)
+IsDigitB(x) == x >= 48 /\ x <= 57
+RECURSIVE DigitsVal(_)
+DigitsVal(ds) == IF ds = <<>> THEN 0 ELSE 10 * DigitsVal(SubSeq(ds, 1, Len(ds) - 1)) + (ds[Len(ds)] - 48)
+QuarterOf(v) ==
+  LET neg == Len(v) > 0 /\ v[1] = 45
+      body == IF neg THEN Tail(v) ELSE v
+      dots == {i \in DOMAIN body : body[i] = 46}
+      d == IF dots = {} THEN 0 ELSE CHOOSE i \in dots : TRUE
+      ip == IF d = 0 THEN body ELSE SubSeq(body, 1, d - 1)
+      fp == IF d = 0 THEN <<>> ELSE SubSeq(body, d + 1, Len(body))
+      fq == IF d = 0 THEN 0 ELSE IF fp = <<50, 53>> THEN 1 ELSE IF fp = <<53>> THEN 2 ELSE IF fp = <<55, 53>> THEN 3 ELSE -1
+      okip == Len(ip) >= 1 /\ Len(ip) <= 6 /\ (\A i \in DOMAIN ip : IsDigitB(ip[i])) /\ (Len(ip) = 1 \/ ip[1] # 48)
+      mag == IF okip THEN 4 * DigitsVal(ip) + fq ELSE 0
+  IN IF Cardinality(dots) <= 1 /\ okip /\ fq >= 0 /\ ~(neg /\ mag = 0)
+     THEN [ok |-> TRUE, q |-> IF neg THEN -mag ELSE mag] ELSE [ok |-> FALSE, q |-> 0]
+FloatLetters == {65, 66, 67, 68, 69, 70, 73, 78, 80, 84, 88, 89, 97, 98, 99, 100, 101, 102, 105, 110, 112, 116, 120, 121}   \* A-F I N P T X Y, both cases
+FloatJunk(v) == v = <<>> \/ \E i \in DOMAIN v : ~(IsDigitB(v[i]) \/ v[i] \in {43, 45, 46} \/ v[i] \in FloatLetters)
+IncrFloatLoose(c, st) == Has(st, c.k) /\ st[c.k].t = "string" /\ ~FloatJunk(st[c.k].v) /\ ~QuarterOf(st[c.k].v).ok
+DoIncrByFloat(c, st) ==
+  IF Has(st, c.k) /\ st[c.k].t # "string" THEN Res(WRONGTYPE, st)
+  ELSE IF Has(st, c.k) /\ FloatJunk(st[c.k].v) THEN Res(ERR, st)
+  ELSE LET cur == IF Has(st, c.k) THEN QuarterOf(st[c.k].v) ELSE [ok |-> TRUE, q |-> 0] IN
+       IF ~cur.ok THEN Res(ERR, st)              \* loose (IncrFloatLoose): never judged
+       ELSE LET b == ScoreBytes(cur.q + c.q) IN Res(RBulk(b), Put(st, c.k, Entry("string", b, ExpOf(st, c.k))))
+
 (* the command table *)
 DoLive(c, st, now) ==
   CASE c.op = "GET" -> DoGet(c, st)            [] c.op = "SET" -> DoSet(c, st, now)
@@ -461,6 +492,7 @@ DoLive(c, st, now) ==
     [] c.op = "SETBIT" -> DoSetBit(c, st)      [] c.op = "GETBIT" -> DoGetBit(c, st)
     [] c.op = "GETEX" -> DoGetEx(c, st, now)   [] c.op = "SPOP" -> DoSpop(c, st)
     [] c.op = "RANDOMKEY" -> DoRandomKey(c, st)
+    [] c.op = "INCRBYFLOAT" -> DoIncrByFloat(c, st)
 
 (* expired keys are invisible before the command runs *)
 Do(c, st, now) == DoLive(c, Live(st, now), now)
